@@ -9,7 +9,8 @@ CLAIMS = {
                 '(LEAPFROG; WHFast 4 kernels x 3 synchronisation states x correctors 3..17 x corrector2; 18 SABA types x 3 states; 9 EOS splittings in both shells; '
                 '5 JANUS schemes; MERCURIUS) the drift, kick, COM, jump and time coefficients of one full step each sum to 1*dt '
                 '(first-order consistency, |sum-1| <= 1e-14); EOS pre/post-processors and WHFast correctors are mutually inverse operator sequences; '
-                'coefficient tables agree with their exact definitions to 1 ulp.',
+                'coefficient tables agree with their exact definitions to 1 ulp; the IAS15 closing update and predictor polynomials are the integrals of the force series; '
+                'in the Bulirsch-Stoer sub-steps the particle array is refreshed from y1 before the coupled right-hand sides are evaluated.',
         not_decided='order of accuracy beyond consistency and symmetry, adaptive step control, user ODE coupling, error constants (runtime numerics)',
         design_ref='3/C01'),
     'C02': dict(
